@@ -34,6 +34,7 @@
 #include <blocc/exception_runtime.h>
 #include <blocc/plugin_manager.h>
 #include <blocc/bloc_capi.h>
+#include <apps/read_file.cpp>   /* the command line's file reader, exercised by `tok … rf` (C13) */
 
 #include <cstdio>
 #include <cstdlib>
@@ -756,7 +757,17 @@ static std::string doOp(const std::string& op) {
     FragReader reader(hexdec(a.at(1)), sizes, lineMode, maxl);
     // BEGIN C13: `sr` = the library's own StringReader (drops CR, line discipline, 1023 bytes per call)
     StringReader sreader(hexdec(a.at(1)));
-    Parser* p = spec == "sr" ? Parser::createInteractiveParser(c, sreader) : Parser::createInteractiveParser(c, reader);
+    // `rf` = the command line's own file reader (apps/read_file.cpp) on a real FILE*
+    FILE* rfile = nullptr;
+    if (spec == "rf") {
+      std::string txt = hexdec(a.at(1));
+      int fd = memfd(); if (!txt.empty()) { ssize_t n = pwrite(fd, txt.data(), txt.size(), 0); (void)n; }
+      rfile = fdopen(fd, "r");
+    }
+    ReadFile freader(rfile);
+    Parser* p = spec == "sr" ? Parser::createInteractiveParser(c, sreader)
+              : spec == "rf" ? Parser::createInteractiveParser(c, freader)
+              : Parser::createInteractiveParser(c, reader);
     // END C13
     std::string o;
     try {
@@ -767,6 +778,7 @@ static std::string doOp(const std::string& op) {
       }
     } catch (ParseError& pe) { /* end of stream */ }
     delete p;
+    if (rfile) fclose(rfile);
     return "toks=" + o;
   }
   // BEGIN C16 C17
